@@ -578,7 +578,7 @@ class Dict(dict, base.Symbolic, pg_typing.CustomTyping):
       old_value.sym_setpath(utils.KeyPath())
 
     return base.FieldUpdate(
-        self.sym_path + key, self._update_target(), field,
+        utils.KeyPath(key, self.sym_path), self._update_target(), field,
         old_value, new_value)
 
   def _update_target(self) -> base.Symbolic:
@@ -797,7 +797,7 @@ class Dict(dict, base.Symbolic, pg_typing.CustomTyping):
     if flags.is_change_notification_enabled():
       self._notify_field_updates([
           base.FieldUpdate(
-              self.sym_path + key, self._update_target(), None,
+              utils.KeyPath(key, self.sym_path), self._update_target(), None,
               value, pg_typing.MISSING_VALUE)
       ])
     return key, value
@@ -832,7 +832,7 @@ class Dict(dict, base.Symbolic, pg_typing.CustomTyping):
         value.sym_setpath(utils.KeyPath())
       updates.append(
           base.FieldUpdate(
-              self.sym_path + key, self._update_target(),
+              utils.KeyPath(key, self.sym_path), self._update_target(),
               value_spec.schema.get_field(key)
               if value_spec and value_spec.schema else None,
               value, new_value))
